@@ -1,1 +1,1 @@
-from . import ci  # noqa: F401
+from . import ci, im  # noqa: F401
